@@ -439,6 +439,14 @@ func parseKeyAux(family, key string) map[string]string {
 		if len(f) == 3 {
 			a["bridged"], a["op"], a["name"] = f[0], f[1], f[2]
 		}
+	case family == "entry":
+		if len(f) == 2 {
+			a["route"], a["body"] = f[0], f[1]
+		}
+	case family == "scope-mutation":
+		if len(f) == 3 {
+			a["kind"], a["form"], a["mutation"] = f[0], f[1], f[2]
+		}
 	case family == "history":
 		if len(f) == 3 {
 			a["subject"], a["prop"], a["steps"] = f[0], f[1], f[2]
